@@ -20,11 +20,12 @@ pub open spec fn ofun(i: v1::Instance) -> v1::Function { match i.objective { Som
 ''')
     asm.file('spec/fn_algebra_rem.rs')
     asm.file('spec/fn_algebra.rs')
+    asm.raw(ss.BEST_SPEC, 'best-feasible ghost definitions')
     asm.raw('} // mod lib\npub mod units {\n' + common.UNITS_USES + 'use super::lib::v1::instance::Sense;\nbroadcast use super::lib::ax_zero_f64;\n')
     asm.raw(fn_stubs.NEG + fn_stubs.ZERO, 'assumed callee contracts (Neg for Function, Function::zero)')
     asm.stubs.append(dict(unit='Neg for Function', proved_in='C02'))
     asm.stubs.append(dict(unit='Function::zero', proved_in='C02'))
-    for u in (ev.instance_objective(), io.as_minimization_problem(), ss.feasible_relaxed(), ss.feasible_unrelaxed(), ss.sampled_values_get()):
+    for u in (ev.instance_objective(), io.as_minimization_problem(), ss.feasible_relaxed(), ss.feasible_unrelaxed(), ss.sampled_values_get_exact(), ss.sample_set_objectives(), ss.sample_set_best(), ss.feasible_ids(), ss.feasible_unrelaxed_ids(), ss.best_feasible_id(), ss.best_feasible_unrelaxed_id()):
         asm.unit(u)
     asm.raw('''// property lemmas: both problems rank all assignments identically (up to the explicit remainder), and the conversion is idempotent by its first clause
 proof fn lemma_same_ranking(f: Function, g: Function, x: Map<u64, F64>, y: Map<u64, F64>)
@@ -44,8 +45,8 @@ proof fn vacuity_pre(f: v1::Function, g: v1::Function, x: Map<u64, F64>) require
         trusted_base=common.TRUSTED_COMMON + common.T4_COLLECTIONS + [
             'T5 ASSUMED callee contract: Neg for Function yields a function whose value is the negated value minus an explicit (uninterpreted) epsilon-drop remainder (dispatch layer decided in C02)',
             'T4: prost accessor sense(): code -> variant',
+            'T4 std helpers: Iterator::min_by (least element for every transitive relation the comparator refines), f64::total_cmp (strict order on finite values), HashMap::iter().filter_map(C).collect(), BTreeSet::into_iter, bool::then_some',
         ],
         assumptions=common.A1,
-        not_covered=['SampleSet::best / best_feasible* (iterator chain with min_by/total_cmp and closures over ordered floats: outside Verus)',
-                     'SampleSet::feasible_ids / feasible_unrelaxed_ids (filter_map over a HashMap iterator)'],
+        not_covered=['SampleSet::best_feasible / best_feasible_unrelaxed: they assemble the Solution through SampleSet::get (C06 territory); bounded stand-in only'],
     )
